@@ -48,7 +48,7 @@ pub fn boundary_reals() -> Vec<f32> {
         0.0, -0.0, 0.5, -0.5, 1.0, -1.0, 3.0, 0.1, 0.2, 0.3, 1.5, 2.5, 1e-7, 1.0e-10, 123456.79, 16777216.0, 16777218.0,
         8388608.5, 0.000001, 1e10, -1e10, 2147483648.0, -2147483648.0, 4294967296.0, 9.007199e15,
         f32::MIN_POSITIVE, f32::EPSILON, 1.17549421e-38, 1e-45, 3.4e38, f32::MAX, f32::MIN, 9.223372e18, -9.223372e18,
-        9.2233715e18, 1e19, 1e20, -1e20, 0.99999994, 1.0000001, 255.0, 65535.0, 0.333333343, 100.25, -0.75, 612.0, 792.0,
+        9.2233715e18, 9.3e18, 9.5e18, -9.5e18, 9.99e18, -9.99e18, 1e19, 1.1e19, 1e20, -1e20, 0.99999994, 1.0000001, 255.0, 65535.0, 0.333333343, 100.25, -0.75, 612.0, 792.0,
     ]
 }
 
@@ -193,6 +193,21 @@ impl DocGen {
     }
 }
 
+/// `depth` arrays (or dictionaries) nested inside each other around a leaf
+pub fn nested(depth: usize, dicts: bool, leaf: Object) -> Object {
+    let mut o = leaf;
+    for _ in 0..depth {
+        o = if dicts {
+            let mut d = Dictionary::new();
+            d.set("K", o);
+            Object::Dictionary(d)
+        } else {
+            Object::Array(vec![o])
+        };
+    }
+    o
+}
+
 pub const VERSIONS: &[&str] = &["1.4", "1.5", "1.7", "2.0", "1.0", "1.10", "x", "1.5-custom"];
 
 /// A random document inside the domain of C01: distinct object numbers, max_id >= every number,
@@ -220,6 +235,14 @@ pub fn random_document(rng: &mut Rng, max_objects: usize, hostile: bool, allow_b
     };
     for id in &ids {
         doc.objects.insert(*id, g.top_object(rng));
+    }
+    // now and then: nesting up to the parser's documented limit, and many empty containers
+    if let Some(id) = ids.first() {
+        if rng.chance(1, 8) {
+            doc.objects.insert(*id, nested(*rng.pick(&[30usize, 46, 47, 48]), rng.chance(1, 2), g.scalar(rng)));
+        } else if rng.chance(1, 8) {
+            doc.objects.insert(*id, Object::Array((0..60 + rng.below(40)).map(|i| if i % 3 == 0 { Object::Dictionary(Dictionary::new()) } else { Object::Array(vec![]) }).collect()));
+        }
     }
     doc.max_id = cur + if rng.chance(1, 3) { rng.below(5) as u32 } else { 0 };
     // trailer: Root / Info references plus arbitrary user entries
